@@ -28,6 +28,7 @@ from pathlib import Path
 
 from src.core.types import Violation
 from src.linter_config.loader import LinterConfigLoader
+from src.linter_config.rule_matcher import rule_matches
 from src.orchestrator.core import Orchestrator
 
 
@@ -114,5 +115,7 @@ class Linter:
     ) -> list[Violation]:
         """Filter violations by rule names."""
         if rules:
-            return [v for v in violations if v.rule_id in rules]
+            return [
+                v for v in violations if any(rule_matches(v.rule_id, rule) for rule in rules)
+            ]
         return violations
